@@ -14,6 +14,7 @@ RULE = ("guided random schedules of the mailbox World as for C14, each followed 
         "(close() if not yet called, reconnect, deliver every owed answer); per-step comparison with the Lean model; "
         "the oracle inspects the REAL server's tables at the moment `closed` is notified; distinct = distinct traces")
 
+MOOD_OF = {"happy": "happy", "LonelyError": "lonely", "WrongPasswordError": "scary", "ServerError": "errory", "WelcomeError": "unwelcome"}
 DOC_VERDICTS = ("happy", "LonelyError", "WrongPasswordError", "ServerError", "WelcomeError", "ServerConnectionError")
 
 
@@ -85,6 +86,12 @@ def oracle(summary):
     if cause and not cause.startswith("?") and v != cause:
         viol.append(("verdict-not-first-cause:" + str(cause), f"the wormhole started closing because of {cause} but reported closed({v})"))
     snap = summary["at_closed"]
+    # "closed its mailbox with the matching mood": every `close` this client put on the wire carries the mood of the verdict
+    if snap and v in MOOD_OF:
+        wrong = [m for m in snap.get("close_moods", []) if m != MOOD_OF[v]]
+        if wrong:
+            viol.append(("mood-mismatch:%s:%s" % (v, wrong[0]), f"closed({v}) but the mailbox was closed on the wire with mood {wrong} "
+                         f"(the mood of this verdict is {MOOD_OF[v]!r})"))
     if snap and v in DOC_VERDICTS and v != "ServerConnectionError" and snap["terminator"] == "S_stopped":
         side = snap["side"]
         held = [r for r in snap["server"]["nameplate_sides"] if r["side"] == side and r["claimed"]]
